@@ -27,6 +27,7 @@ if h:
             import json
             kf = json.load(open(os.path.join(os.path.dirname(os.path.abspath(__file__)), "..", "findings", "C19.json")))["entries"]
             one_open = any(k.get("kind") == "finding" and "one-byte-read-with-error" in k.get("signature", "") for k in kf)
+            c.cov["open_findings"] = [k["signature"] for k in kf if k.get("kind") == "finding"]
             impl_p, model_p = os.path.join(c.work, "impl.obs"), os.path.join(c.work, "model.obs")
             model = {}
             for ln in open(model_p):
